@@ -20,6 +20,8 @@ def run(ctx):
     ctx.rule("C16.5", "the payload of a Value::Int (a query-supplied integer) is never cast to an unsigned type without a sign test")
     ctx.rule("C16.6", "chrono's panicking TimeDelta constructors (days / hours / ... panic when out of range) only receive arguments bounded by construction")
     ctx.rule("C16.7", "a value produced by saturating_* arithmetic (so believed to reach the extremes) is not combined by a raw overflow-capable operation")
+    ctx.rule("C16.8", "every parser loop that wraps the expression under construction into a new parent node (iterative tree growth: `1+1+1...`, `a.b.c...`, `n:A:B:C...`) passes the tree-height guard once per new level")
+    ctx.rule("C16.9", "every parser loop that appends one more plan-stacking unit (clause, UNION branch, pattern, hop) per iteration is bounded by a constant budget — the plan is compiled and executed recursively, one level per unit")
     ctx.rule("C16.2", "no unwrap/expect on a Result carrying one of the repository's error types in product code (an error must be returned, not turned into a panic)")
     nodes = sorted(i for i in F.bodies if i.startswith(PARSER_PREFIX) and "::tests::" not in i)
     ctx.floor("C16.1", "parser bodies", len(nodes), 60)
@@ -283,3 +285,164 @@ def run(ctx):
                         k += 1
     ctx.instance("C16.7", "saturating_* calls in the query crate: %d; raw operations on their results: %d" % (nsat, n7))
     ctx.floor("C16.7", "saturating_* calls in the query crate", nsat, 20)
+
+    # ---- clause 8: iterative growth of expression trees ---------------------------------------------
+    # Recursive-descent nesting is bounded by C16.1, but a loop that does `lhs = Node(lhs, ..)` makes the tree one level higher per
+    # iteration without recursing; validation, planning, evaluation and Drop then recurse over that height.  A growth site is an
+    # assignment, inside a CFG cycle, to an `Expression` local with several definitions whose new value is built from its old value.
+    EXPR = "nervusdb_query::ast::Expression"
+    GROW = "::grow_expression"
+
+    def self_dependent(b, site, L):
+        defs = b.defs()
+        bi, si, kind, st = site
+        if kind == "call":
+            ops = list(b.call_at(bi).args)
+        else:
+            from ..facts import rvalue_operands
+            ops = list(rvalue_operands(st[2]))
+        def base(o):
+            return o[1][0] if o and o[0] in ("c", "m") else None
+
+        seen = set()
+        work = [base(o) for o in ops if base(o) is not None]
+        for _ in range(200):
+            if not work:
+                break
+            x = work.pop()
+            if x == L:
+                return True
+            if x in seen:
+                continue
+            seen.add(x)
+            # stores through projections of x (`(*box) = [move other, ..]`, `x.field = ..`) feed x as well
+            for blk2 in b.blocks:
+                for st2 in blk2["s"]:
+                    if st2[0] == "a" and st2[1][0] == x and st2[1][1]:
+                        from ..facts import rvalue_operands as _ro
+                        work += [base(o) for o in _ro(st2[2]) if base(o) is not None]
+            for sd in defs.get(x, []):
+                if sd[2] == "call":
+                    work += [base(a) for a in b.call_at(sd[0]).args if base(a) is not None]
+                elif sd[2] == "assign":
+                    from ..facts import rvalue_operands
+                    rv = sd[3][2]
+                    if rv[0] in ("ref", "rawptr"):
+                        work.append((rv[2] if rv[0] == "ref" else rv[1])[0])
+                    else:
+                        work += [base(o) for o in rvalue_operands(rv) if base(o) is not None]
+        return False
+
+    n8 = 0
+    for i, b in sorted(F.bodies.items()):
+        if not i.startswith("nervusdb_query::parser::") or "::tests::" in i or b.root:
+            continue
+        defs = b.defs()
+        grows = [c for c in b.calls() if c.name.endswith((GROW, GROW + "_by"))]
+        k = 0
+        for L in range(len(b.locals)):
+            if b.local_ty(L) != EXPR:
+                continue
+            ds = [x for x in defs.get(L, []) if x[2] in ("assign", "call")]
+            if len(ds) < 2:
+                continue
+            for site in ds:
+                bi = site[0]
+                cyc = b.reachable(b.succs(bi))
+                if bi not in cyc or not self_dependent(b, site, L):
+                    continue
+                n8 += 1
+                own = any(b.dominates(g.bb, bi) and g.bb in cyc for g in b.calls() if g.name.endswith((GROW, GROW + "_by")))
+                via_callers = False
+                if not own and not grows:
+                    callers = [(cid, c) for cid in sorted(F.callers().get(i, ())) for c in F.bodies[cid].calls() if c.name == i]
+                    # the callee's loop runs once per element of an argument: the caller must charge the whole count up front
+                    via_callers = bool(callers) and all(
+                        any(g.name.endswith(GROW + "_by") and cb.dominates(g.bb, c.bb) and g.bb in cb.reachable(cb.succs(c.bb)) for g in cb.calls())
+                        for cid, c in callers for cb in [F.bodies[cid]])
+                ctx.instance("C16.8", "%s: `%s = Node(%s, ..)` in a loop — height guard: %s" % (
+                    i.split("::")[-1], b.local_name(L) or ("_%d" % L), b.local_name(L) or ("_%d" % L),
+                    "in the loop" if own else ("counted by every caller" if via_callers else "NONE")))
+                ctx.oblige(own or via_callers, "C16.8", "%s:grows(%s)#%d" % (i, b.local_name(L) or "tmp", k),
+                           "a parser loop makes the expression tree one level higher per iteration without passing the height guard: a long chain "
+                           "(`1+1+1+...`) builds a tree whose recursive walkers (validation, evaluation, Drop) overflow the stack", "%s:%d" % (b.file, (site[3][3] if site[2] == "assign" else b.call_at(bi).line)))
+                k += 1
+    ctx.floor("C16.8", "iterative tree-growth sites in the parser", n8, 7)
+
+    # ---- clause 9: plan-stacking loops ---------------------------------------------------------------
+    # Each clause, UNION branch, comma-separated pattern and hop becomes an operator stacked on the plan built so far; the compiler
+    # (clone + recursive inspection per clause), the read executor and above all the write executor (execute_write_with_rows, ~27 KB
+    # of stack per level in a debug build) recurse once per level.  The parser's step budget scales with the token count, so it
+    # bounds work, not depth.  A loop is bounded when, inside the cycle and dominating the push, it calls a parser method that
+    # compares one of the parser's counters with a *constant* (the shape of grow_expression_by).
+    STACKING = ("nervusdb_query::ast::Clause", "nervusdb_query::ast::PathElement", "nervusdb_query::ast::Pattern")
+
+    def field_of(fb, o):
+        """name of the TokenParser field an operand was read from (through one copy)"""
+        if o[0] not in ("c", "m"):
+            return None
+        pl = o[1]
+        fs = [p_[2] for p_ in pl[1] if isinstance(p_, list) and p_[0] == "f" and str(p_[3]).endswith("TokenParser")]
+        if fs:
+            return fs[-1]
+        if not pl[1]:
+            og = fb.origin(pl[0])
+            if og and og[0] == "place":
+                fs = [p_[2] for p_ in og[1][1] if isinstance(p_, list) and p_[0] == "f" and str(p_[3]).endswith("TokenParser")]
+                if fs:
+                    return fs[-1]
+        return None
+
+    # counters that are also decremented measure the current depth, not the amount of structure built so far
+    DEC = set()
+    for fid_, fb_ in F.bodies.items():
+        if not fid_.startswith("nervusdb_query::parser::"):
+            continue
+        for blk in fb_.blocks:
+            for st in blk["s"]:
+                if st[0] == "a" and st[2][0] == "bin" and st[2][1] in ("Sub", "SubWithOverflow"):
+                    f_ = field_of(fb_, st[2][2])
+                    if f_:
+                        DEC.add(f_)
+
+    def is_const_budget(fid, depth=2):
+        fb = F.bodies.get(fid)
+        if fb is None or not fid.startswith("nervusdb_query::parser::"):
+            return False
+        for blk in fb.blocks:
+            for st in blk["s"]:
+                if st[0] == "a" and st[2][0] == "bin" and st[2][1] in ("Gt", "Ge", "Lt", "Le"):
+                    ops = (st[2][2], st[2][3])
+                    if any(o[0] == "k" for o in ops):
+                        f_ = next((field_of(fb, o) for o in ops if field_of(fb, o)), None)
+                        if f_ and f_ not in DEC:
+                            return True
+        if depth > 0:
+            return any(is_const_budget(c.name, depth - 1) for c in fb.calls() if c.name.startswith("nervusdb_query::parser::TokenParser::") and c.name != fid)
+        return False
+
+    n9 = 0
+    for i, b in sorted(F.bodies.items()):
+        if not i.startswith("nervusdb_query::parser::TokenParser::") or "::tests::" in i or b.root:
+            continue
+        k = {}
+        for c in b.calls():
+            if not c.name.endswith("::push") or not c.args:
+                continue
+            vl = peel_refs(b, op_local(c.args[0])) if op_local(c.args[0]) is not None else None
+            vty = b.local_ty(vl) if vl is not None else ""
+            elem = next((s for s in STACKING if vty.startswith("alloc::vec::Vec<" + s)), None)
+            if elem is None:
+                continue
+            cyc = b.reachable(b.succs(c.bb))
+            if c.bb not in cyc:
+                continue
+            n9 += 1
+            short = elem.split("::")[-1]
+            k[short] = k.get(short, -1) + 1
+            bounded = any(g.bb in cyc and b.dominates(g.bb, c.bb) and is_const_budget(g.name) for g in b.calls() if g is not c)
+            ctx.instance("C16.9", "%s: one more %s per iteration (%s) — constant budget in the loop: %s" % (i.split("::")[-1], short, c.loc(), bounded))
+            ctx.oblige(bounded, "C16.9", "%s:unbounded(%s)#%d" % (i, short, k[short]),
+                       "the number of %ss this loop appends is bounded only by the length of the query text: each becomes one more level of the plan, and "
+                       "plan compilation and execution recurse once per level (a few hundred stacked clauses overflow the stack and abort the process)" % short, c.loc())
+    ctx.floor("C16.9", "plan-stacking loops in the parser", n9, 3)
